@@ -54,7 +54,7 @@ Example C16_example : unescape_single (esc_single [97; 39; 92; 34; 10; 233]) = S
 Proof. vm_compute. reflexivity. Qed.
 
 (* ---------- from the path text (KeyParse.v, KeyAddr.v) ---------- *)
-From JP Require Import Peg Grammar Tree Actions Eval EvalInv1 EvalInv4 EvalTop KeyDefs KeyParse KeyAddr DecFacts IdxParse WildParse ChainParse ChainAddr.
+From JP Require Import Peg Grammar Tree Actions Eval EvalInv1 EvalInv4 EvalTop KeyDefs KeyParse KeyAddr DecFacts IdxParse WildParse RecParse ChainParse ChainAddr.
 Local Open Scope N_scope.
 Open Scope list_scope.
 
@@ -140,10 +140,10 @@ Proof. split; vm_compute; reflexivity. Qed.
 
 (* ---------- every node of the document (IdxParse.v, ChainParse.v, ChainAddr.v) ---------- *)
 (* a path of ANY number of steps — name steps in any of the three spellings, index steps [digits] and wildcard
-   steps .* / [*] (KeyDefs.chain_path) — is accepted and builds the chain of steps (the first node carrying the
+   steps .* / [*], each possibly after `..` (KeyDefs.chain_path) — is accepted and builds the chain of steps (the first node carrying the
    value-group flag of the whole path) ... *)
-Theorem C16_chain_parses : forall cfg parse_float regex_ok s r, forallb step_ok (s :: r) = true ->
-  parse_with cfg parse_float regex_ok jsonpath_grammar (chain_path (s :: r)) = ParseOk (chain_node cfg s r).
+Theorem C16_chain_parses : forall cfg parse_float regex_ok x r, forallb rstep_ok (x :: r) = true ->
+  parse_with cfg parse_float regex_ok jsonpath_grammar (chain_path (x :: r)) = ParseOk (chain_node cfg (x :: r)).
 Proof. exact parse_chain_path. Qed.
 Print Assumptions C16_chain_parses.
 
@@ -156,7 +156,7 @@ Theorem C16_member_addressable_at_depth : forall cfg parse_float regex_ok ffun a
   (forall f l w, Forall small l -> afun f l = Some w -> small w) ->
   forall s r doc v st, forallb step_ok (s :: r) = true -> no_wild (s :: r) = true -> small doc -> ok st ->
   nav_chain doc (s :: r) = Some v ->
-  exists t, parse_with cfg parse_float regex_ok jsonpath_grammar (chain_path (s :: r)) = ParseOk t /\
+  exists t, parse_with cfg parse_float regex_ok jsonpath_grammar (chain_path (map RPlain (s :: r))) = ParseOk t /\
             fst (eval_run ffun afun regex_match t doc st) = OOk [chain_result cfg (s :: r) v].
 Proof. exact chain_addressable. Qed.
 Print Assumptions C16_member_addressable_at_depth.
@@ -165,7 +165,7 @@ Theorem C16_absent_at_depth : forall cfg parse_float regex_ok ffun afun regex_ma
   (forall f l w, Forall small l -> afun f l = Some w -> small w) ->
   forall s r doc st, forallb step_ok (s :: r) = true -> no_wild (s :: r) = true -> small doc -> ok st ->
   nav_chain doc (s :: r) = None ->
-  exists t e, parse_with cfg parse_float regex_ok jsonpath_grammar (chain_path (s :: r)) = ParseOk t /\
+  exists t e, parse_with cfg parse_float regex_ok jsonpath_grammar (chain_path (map RPlain (s :: r))) = ParseOk t /\
               fst (eval_run ffun afun regex_match t doc st) = OErr e.
 Proof. exact chain_absent. Qed.
 Print Assumptions C16_absent_at_depth.
@@ -177,7 +177,7 @@ Proof. exact idx_step_ok. Qed.
 Print Assumptions C16_decimal_index_step.
 
 Example C16_chain_example :
-  chain_path [SBr 34 [97; 34]; SIdx (dec 12); SDot [98; 46]; SBr 39 []] =
+  chain_path (map RPlain [SBr 34 [97; 34]; SIdx (dec 12); SDot [98; 46]; SBr 39 []]) =
     [36; 91; 34; 97; 92; 34; 34; 93; 91; 49; 50; 93; 46; 98; 92; 46; 91; 39; 39; 93] /\
   forallb step_ok [SBr 34 [97; 34]; SIdx (dec 12); SDot [98; 46]; SBr 39 []] = true.
 Proof. split; vm_compute; reflexivity. Qed.
